@@ -1050,6 +1050,27 @@ func (w *pWorld) execHTTPReq(op Op) {
 				tooBig = true // a zero-length message is malformed in the binary format
 			}
 			accepted = len(nonEmpty)
+			// damaged layouts of a complete request: all of them are refused as a whole
+			switch (op.D >> 1) % 6 {
+			case 1: // the last message (or its size word) is cut short
+				cut := 1 + r.Intn(len(body)-1)
+				if cut > 6 {
+					cut = 1 + r.Intn(6)
+				}
+				body = body[:len(body)-cut]
+				tooBig = true
+				w.rc.Probe("mpub_binary_truncated")
+			case 2: // the count announces one message more than there is
+				body = append([]byte(nil), body...)
+				binary.BigEndian.PutUint32(body[:4], uint32(len(nonEmpty)+1))
+				tooBig = true
+				w.rc.Probe("mpub_binary_count_too_high")
+			case 3: // nonsensical count
+				body = append([]byte(nil), body...)
+				binary.BigEndian.PutUint32(body[:4], uint32(int32(r.Pick(0, -1, 1<<30))))
+				tooBig = true
+				w.rc.Probe("mpub_binary_bad_count")
+			}
 		} else {
 			body = bytes.Join(lines, []byte("\n"))
 			for _, l := range lines {
